@@ -2,6 +2,7 @@ package rules
 
 import (
 	"fmt"
+	"go/ast"
 	"go/token"
 	"go/types"
 	"sort"
@@ -15,7 +16,7 @@ import (
 func init() {
 	Register(&Property{
 		ID: "C12",
-		Explanation: "Decides the absence of the structural ways for the OPL parser to panic or hang: (R12.1) the two explicit panics are unreachable -- every value handed to match/matchIf (also through matchPropertyAccess) has one of the static types the type switch handles, and setOperation is only called where the token type is one of its cases; (R12.2) every lexer state function emits at most a bounded number of items per call, never on a CFG cycle, and that bound is below the capacity of the items channel (the lexer runs on the parser's goroutine, so an overfull channel blocks forever); nextItem calls a state only after draining; (R12.4) every write to the lexer position outside next/backup advances by the length of a prefix that was just tested; (R12.5) every loop of the parser makes progress (consumes a token through a parser method) or leaves; (R12.6) every recursive cycle of package schema (expression nesting, the recursive type check, simplifyExpression) has a guarded decreasing depth or a strict descent into the AST; (R12.7) every index into the source rows in ParseError.Error is preceded by a length test; (R12.9) every count handed to strings.Repeat / make in package schema is a length, a non-negative constant or bounded from below by a dominating test; (R12.8) the REST and gRPC syntax handlers both parse the complete request content and map every error, and ToAPI/ToProto are built from the same three sources. " +
+		Explanation: "Decides the absence of the structural ways for the OPL parser to panic or hang: (R12.1) the two explicit panics are unreachable -- every value handed to match/matchIf (also through matchPropertyAccess) has one of the static types the type switch handles, and setOperation is only called where the token type is one of its cases; (R12.2) every lexer state function emits at most a bounded number of items per call, never on a CFG cycle, and that bound is below the capacity of the items channel (the lexer runs on the parser's goroutine, so an overfull channel blocks forever); nextItem calls a state only after draining; (R12.4) every write to the lexer position outside next/backup advances by the length of a prefix that was just tested; (R12.5) every loop of the parser makes progress (consumes a token through a parser method) or leaves; (R12.6) every recursive cycle of package schema (expression nesting, the recursive type check, simplifyExpression) has a guarded decreasing depth or a strict descent into the AST; (R12.7) every index into the source rows in ParseError.Error is preceded by a length test; (R12.10) token text of the request enters an error message only through %q, so every message is valid UTF-8 and can be rendered on both transports; (R12.9) every count handed to strings.Repeat / make in package schema is a length, a non-negative constant or bounded from below by a dominating test; (R12.8) the REST and gRPC syntax handlers both parse the complete request content and map every error, and ToAPI/ToProto are built from the same three sources. " +
 			"Not decided: linear running time; the typestate of lexer.backup (R12.3 of the design is not built: its only effect is a mis-positioned token, not a hang or panic).",
 		Assumptions: []string{"every *parser method other than peek/addErr/addFatal/addCheck consumes at least one token or sets the fatal flag"},
 		Run:         runC12,
@@ -41,6 +42,7 @@ func runC12(c *Ctx) {
 	c.R.Floor("R12.6", 3, "expression nesting, recursive type check, simplifyExpression")
 	r127(c)
 	r129(c)
+	rawTextVerbs(c, "R12.10")
 	r128(c)
 }
 
@@ -772,4 +774,119 @@ func r129(c *Ctx) {
 	if n < 2 {
 		r.Undecide("R12.9", "", "counted allocations in package schema", "", fmt.Sprintf("%d found (floor 2: the two error-list allocations of the handlers)", n))
 	}
+}
+
+// ---- R12.10 request text enters messages only through %q -------------------------------------------
+
+// rawTextVerbs: the OPL source is a byte string from the request. A token's
+// text formatted into an error message with %s / %v reaches the response
+// unescaped: invalid UTF-8 in a string literal then makes the gRPC response
+// (a proto3 string field) fail to marshal, and the client gets codes.Internal
+// instead of the diagnosis. Every verb that consumes a token (an `item`, or
+// its Val) in package schema is %q.
+func rawTextVerbs(c *Ctx, rule string) {
+	p, r := c.P, c.R
+	pkg := p.Pkg(schemaRel)
+	if pkg == nil {
+		r.Undecide(rule, "", "anchor package schema", "", "not loaded")
+		return
+	}
+	info := pkg.TypesInfo
+	isItem := func(t types.Type) bool { return t != nil && core.IsNamed(t, core.KetoMod+"/"+schemaRel, "item") }
+	isTokenText := func(e ast.Expr) bool {
+		e = unparen(e)
+		if isItem(info.TypeOf(e)) {
+			return true
+		}
+		if sel, ok := e.(*ast.SelectorExpr); ok && sel.Sel.Name == "Val" && isItem(info.TypeOf(sel.X)) {
+			return true
+		}
+		return false
+	}
+	n := 0
+	var bad []string
+	for _, f := range pkg.Syntax {
+		// exempt: the Stringer of item itself (the definition of its debug form), and the case
+		// clause that handles an error item (its Val is a message built by the lexer, not source text)
+		exempt := map[ast.Node]bool{}
+		ast.Inspect(f, func(nd ast.Node) bool {
+			switch x := nd.(type) {
+			case *ast.FuncDecl:
+				if x.Name.Name == "String" && x.Recv != nil && len(x.Recv.List) == 1 && isItem(info.TypeOf(x.Recv.List[0].Type)) {
+					exempt[x] = true
+				}
+			case *ast.CaseClause:
+				for _, e := range x.List {
+					if id, ok := unparen(e).(*ast.Ident); ok && id.Name == "itemError" {
+						exempt[x] = true
+					}
+				}
+			}
+			return true
+		})
+		var stack []ast.Node
+		ast.Inspect(f, func(nd ast.Node) bool {
+			if nd == nil {
+				stack = stack[:len(stack)-1]
+				return true
+			}
+			stack = append(stack, nd)
+			call, ok := nd.(*ast.CallExpr)
+			if !ok {
+				return true
+			}
+			for _, anc := range stack {
+				if exempt[anc] {
+					return true
+				}
+			}
+			// find the format argument: the first constant string argument containing a verb
+			fi := -1
+			var format string
+			for i, a := range call.Args {
+				if s, ok := core.ConstString(info, a); ok && strings.Contains(s, "%") {
+					fi, format = i, s
+					break
+				}
+			}
+			if fi < 0 {
+				return true
+			}
+			// verbs in order
+			var verbs []byte
+			for i := 0; i < len(format); i++ {
+				if format[i] != '%' {
+					continue
+				}
+				j := i + 1
+				for j < len(format) && strings.ContainsRune("+-# 0123456789.*[]", rune(format[j])) {
+					j++
+				}
+				if j < len(format) {
+					if format[j] != '%' {
+						verbs = append(verbs, format[j])
+					}
+					i = j
+				}
+			}
+			args := call.Args[fi+1:]
+			for k, a := range args {
+				if k >= len(verbs) || !isTokenText(a) {
+					continue
+				}
+				n++
+				if verbs[k] != 'q' {
+					bad = append(bad, fmt.Sprintf("%s: token text %s is formatted with %%%c", p.Pos(call.Pos()), types.ExprString(a), verbs[k]))
+				}
+			}
+			return true
+		})
+	}
+	if n < 5 {
+		r.Undecide(rule, "", "token text in messages", "", fmt.Sprintf("%d formatted token texts found (floor 5)", n))
+		return
+	}
+	r.Check(len(bad) == 0, rule, schemaRel, "token text is quoted in messages", "",
+		fmt.Sprintf("all %d token texts that enter a message are formatted with %%q", n),
+		strings.Join(bad, "; ")+": the raw bytes of the request reach the response; invalid UTF-8 in them makes the gRPC answer fail to marshal (codes.Internal instead of the diagnosis)")
 }
